@@ -168,7 +168,9 @@ raw("FX-D32-module-function-pop-ra", "C06", {"src": {"": HDR + "from library imp
     "env_seeds": [1], "pool": POOL, "opts": {"use_push_pop_functions": True, "inline_functions": False}})
 raw("FX-D33-local-named-like-module", "C09", {"kind": "program", "src": {"": HDR + "from library import e\ndef w(p0):\n    for e in [1, 2, 5]:\n        d2.Setting = e + p0\nwhile True:\n    w(3)\n    w(4)\n    db.Setting = e.r1x(3)\n    yield_()\n",
     "e": HDR + "def r1x(p0):\n    return 4 + d5.Setting\n"}, "opts": {}})
-raw("FX-module-global-lifetime", "C13", {"A": {"": HDR + "from library import m1\nwhile True:\n    db.Setting = m1.getv()\n    yield_()\n",
-    "m1": HDR + "cnt = 0\nacc = 0\ndef bump():\n    global acc\n    d2.Setting = cnt + 2\n    acc = acc + 1\n    d2.Setting = acc + 2\ndef getv():\n    bump()\n    bump()\n    return cnt + 3\n"},
-    "B": HDR + "m1_cnt = 0\nm1_acc = 0\ndef m1_bump():\n    global m1_acc\n    d2.Setting = m1_cnt + 2\n    m1_acc = m1_acc + 1\n    d2.Setting = m1_acc + 2\ndef m1_getv():\n    m1_bump()\n    m1_bump()\n    return m1_cnt + 3\nwhile True:\n    db.Setting = m1_getv()\n    yield_()\n",
-    "opts": {}})
+_MG_MAIN = HDR + "from library import m1\nfrom library import lib\nfrom library import util\ncnt = 0\nacc = 0\ndef bump():\n    d1.Setting = cnt + 1\nwhile True:\n    db.Setting = m1.getv()\n    yield_()\n"
+_MG_M1 = HDR + "cnt = 0\nacc = 0\ndef bump():\n    global acc\n    d2.Setting = cnt + 2\n    acc = acc + 1\n    d2.Setting = acc + 2\ndef getv():\n    bump()\n    bump()\n    return cnt + 3\n"
+_MG_LIB = HDR + "cnt = 0\ndef bump():\n    d4.Setting = cnt + 4\ndef getv():\n    d5.Setting = cnt + 5\n"
+_MG_UTIL = HDR + "cnt = 0\ndef bump():\n    d0.Setting = cnt + 6\n"
+_MG_B = HDR + "m1_cnt = 0\nm1_acc = 0\ndef m1_bump():\n    global m1_acc\n    d2.Setting = m1_cnt + 2\n    m1_acc = m1_acc + 1\n    d2.Setting = m1_acc + 2\ndef m1_getv():\n    m1_bump()\n    m1_bump()\n    return m1_cnt + 3\nlib_cnt = 0\nutil_cnt = 0\ncnt = 0\nacc = 0\nwhile True:\n    db.Setting = m1_getv()\n    yield_()\n"
+raw("FX-module-global-lifetime", "C13", {"A": {"": _MG_MAIN, "m1": _MG_M1, "lib": _MG_LIB, "util": _MG_UTIL}, "B": _MG_B, "opts": {}})
